@@ -37,13 +37,33 @@ class Model:
             if d["base"]:
                 self.base_of[tuple(sorted((k, tuple(v)) for k, v in d["ref"]))] = n
 
+    def unit_expr(self, dimpairs):
+        """expression in base units with the dimensionality `dimpairs` (a monomial over the base units)"""
+        parts = []
+        for k, e in dimpairs:
+            b = self.base_of[((k, (1, 1)),)]
+            ee = fr(e)
+            parts.append(b if ee == 1 else "%s ** %s" % (b, ee if ee.denominator == 1 else "(%s)" % ee))
+        return " * ".join(parts)
+
     def unit_line(self, n, d):
         if d["base"]:
             return "%s = %s" % (n, fmt_cont(cont(d["ref"])))
         return "%s = %s * %s" % (n, fr(d["scale"]), fmt_cont(cont(d["ref"])))
 
+    def dimname(self, pairs):
+        """a derived-dimension *name* for this container when the model declares one (API-built contexts use it on one
+        side of a rule: the registry must reduce it to base dimensions at first activation)"""
+        key = sorted((k, tuple(v)) for k, v in pairs)
+        for n, c in (self.c.get("ddims") or {}).items() if isinstance(self.c.get("ddims"), dict) else []:
+            if sorted((k, tuple(v)) for k, v in c) == key:
+                return n
+        return None
+
     def lines(self):
         out = []
+        for n, c in ((self.c.get("ddims") or {}).items() if isinstance(self.c.get("ddims"), dict) else []):
+            out.append("%s = %s" % (n, fmt_cont(cont(c))))
         prefixed = [n for n, d in self.c["units"].items() if d["prefixed"]]
         if prefixed:
             out.append("k- = %s" % fr(self.c["units"][prefixed[0]]["scale"]))
@@ -62,21 +82,23 @@ class Model:
         ctx = pint.Context(name, defaults={"p": default} if default != 0 else None)
         for r in c["rules"]:
             src, dst = cont(r["src"]), cont(r["dst"])
-            bs = self.base_of[tuple(sorted((k, tuple(v)) for k, v in r["src"]))]
-            bd = self.base_of[tuple(sorted((k, tuple(v)) for k, v in r["dst"]))]
+            bs = self.unit_expr(r["src"])
+            bd = self.unit_expr(r["dst"])
             coef, pexp = fr(r["coef"]), r["pexp"]
+            srcname = self.dimname(r["src"]) or fmt_cont(src)
+            dstname = self.dimname(r["dst"]) or fmt_cont(dst)
 
             def fn(ureg, value, p=None, coef=coef, pexp=pexp, bs=bs, bd=bd):
-                v = value * coef * ureg.Quantity(1, bd) / ureg.Quantity(1, bs)
+                v = value * coef * ureg.Quantity(1, ureg.parse_units(bd)) / ureg.Quantity(1, ureg.parse_units(bs))
                 if pexp == 1:
                     v = v * p
                 elif pexp == -1:
                     v = v / p
                 return v
             if pexp == 0:
-                ctx.add_transformation(fmt_cont(src), fmt_cont(dst), lambda ureg, value, fn=fn, **kw: fn(ureg, value))
+                ctx.add_transformation(srcname, dstname, lambda ureg, value, fn=fn, **kw: fn(ureg, value))
             else:
-                ctx.add_transformation(fmt_cont(src), fmt_cont(dst), lambda ureg, value, p, fn=fn: fn(ureg, value, p))
+                ctx.add_transformation(srcname, dstname, lambda ureg, value, p, fn=fn: fn(ureg, value, p))
         for rd in c["redefs"]:
             ctx.redefine("%s = %s * %s" % (rd["unit"], fr(rd["scale"]), fmt_cont(cont(rd["ref"]))))
         return ctx
@@ -104,6 +126,9 @@ def probe(u, key):
         if kind == "base":
             q = u.Quantity(F(1), x).to_base_units()
             return ("ok", F(q.magnitude), frozenset((k, F(v)) for k, v in q.unit_items()))
+        if kind == "gbase":
+            f, un = u.get_base_units(x)
+            return ("ok", F(f), frozenset((k, F(v)) for k, v in (1 * un).unit_items()))
         if kind == "root":
             f, un = u.get_root_units(x)
             return ("ok", F(f), frozenset((k, F(v)) for k, v in (1 * un).unit_items()))
@@ -123,7 +148,7 @@ def allowed(key, answers):
     for a in answers:
         if key[0] == "conv":
             out.add(("ok", fr(a[1])) if a[0] == "ok" else (a[0],))
-        elif key[0] in ("base", "root"):
+        elif key[0] in ("base", "gbase", "root"):
             out.add(("ok", fr(a[1]), frozenset((n, fr(e)) for n, e in a[2])) if a[0] == "ok" else (a[0],))
         else:
             out.add(frozenset(a))
@@ -249,7 +274,7 @@ def classify(hist, k, key):
     define_inside_overlay = any(any(a["ctx"] in redef_ctx for a in (hist[i - 1]["stack"] if i > 0 else [])) for i in define_idx)
     key = key or (None, None)
     return {"after_failed_activation": failed_before, "after_define": bool(define_idx), "define_inside_overlay": define_inside_overlay,
-            "probe": key[0], "probe_unit": key[1] if key[0] in ("compat", "base") or key[1] == "new1" else None}
+            "probe": key[0], "probe_unit": key[1] if key[0] in ("compat", "base", "gbase") or key[1] == "new1" else None}
 
 
 # ---------------------------------------------------------------------------------------------- code -> spec traces
@@ -260,7 +285,7 @@ def enc_answer(key, got):
         return ["set", ["<" + got[0] + ">"]]
     if got[0] == "ok":
         out = ["ok", [got[1].numerator, got[1].denominator]]
-        if key[0] in ("base", "root"):
+        if key[0] in ("base", "gbase", "root"):
             out.append(sorted([n, [e.numerator, e.denominator]] for n, e in got[2]))
         return out
     return [got[0]]
@@ -382,14 +407,14 @@ def context_lines(model, name, alias=None):
     head = "@context%s %s%s" % ("(p=%s)" % default if default != 0 else "", name, " = " + alias if alias else "")
     out = [head]
     for r in c["rules"]:
-        bs = model.base_of[tuple(sorted((k, tuple(v)) for k, v in r["src"]))]
-        bd = model.base_of[tuple(sorted((k, tuple(v)) for k, v in r["dst"]))]
+        bs = model.unit_expr(r["src"])
+        bd = model.unit_expr(r["dst"])
         eq = "%s * value" % fr(r["coef"])
         if r["pexp"] == 1:
             eq += " * p"
         elif r["pexp"] == -1:
             eq += " / p"
-        eq += " * %s / %s" % (bd, bs)
+        eq += " * (%s) / (%s)" % (bd, bs)
         out.append("    %s -> %s: %s" % (fmt_cont(cont(r["src"])), fmt_cont(cont(r["dst"])), eq))
     for rd in c["redefs"]:
         out.append("    %s = %s * %s" % (rd["unit"], fr(rd["scale"]), fmt_cont(cont(rd["ref"]))))
